@@ -7,3 +7,6 @@ import SqliteDissect.Properties.C18Regex
 import SqliteDissect.Model.SchemaRows
 import SqliteDissect.Proofs.C07Rows
 import SqliteDissect.Properties.C07Rows
+import SqliteDissect.Generated.PyPage
+import SqliteDissect.Proofs.GenPage
+import SqliteDissect.Properties.GenPage
